@@ -47,7 +47,7 @@ Example C15_roundtrip_ex :
   exists es, save encK lock_encK jsonK sanK semverK restK c_ok = Some es /\ fits 1000 100 es /\
     exists c', load_archive mergeK lock_decK parseK untarK sanK semverK restK 1000 100 1 (mkTS false es false) = inr c'
                /\ chart_eqb c_ok c' = true.
-Proof. exact (conj codecK_ok (conj c_ok_wf c_ok_saved)). Qed.
+Proof. exact roundtrip_example. Qed.
 Print Assumptions C15_roundtrip_ex.
 
 (* ---------- round trip with the whole dependency tree ---------- *)
@@ -87,7 +87,7 @@ Example C15_roundtrip_rec_ex :
   exists es, save encT lock_encK jsonK sanK semverK restT treeT = Some es /\ fits 1000 100 es /\
     exists c', load_archive mergeT lock_decK parseK untarK sanK semverK restT 1000 100 3 (mkTS false es false) = inr c'
                /\ chart_eqb treeT c' = true /\ List.length (c_deps c') = 2%nat.
-Proof. exact (conj codecT_ok (conj treeT_ok treeT_saved)). Qed.
+Proof. exact roundtrip_rec_example. Qed.
 Print Assumptions C15_roundtrip_rec_ex.
 
 (* K4 (known finding): both loaders strip a leading BOM from every file.  On the faithful
